@@ -2870,6 +2870,9 @@ def _from_arrow(
 
         elif isinstance(obj, pyarrow.lib.ChunkedArray):
             layouts = [handle_arrow(x) for x in obj.chunks if len(x) > 0]
+            if len(layouts) == 0 and len(obj.chunks) > 0:
+                # every chunk is empty: keep one of them for its type
+                layouts = [handle_arrow(obj.chunks[0])]
             if all(isinstance(x, ak.layout.UnmaskedArray) for x in layouts):
                 layouts = [x.content for x in layouts]
             if len(layouts) == 1:
@@ -2902,6 +2905,9 @@ def _from_arrow(
                 return handle_arrow(batches[0])
             else:
                 arrays = [handle_arrow(batch) for batch in batches if len(batch) > 0]
+                if len(arrays) == 0:
+                    # every batch is empty: keep one of them for its type
+                    return handle_arrow(batches[0])
                 return ak.operations.structure.concatenate(arrays, highlevel=False)
 
         elif (
